@@ -20,6 +20,7 @@
 #include <stdlib.h>
 #include <string.h>
 #include <time.h>
+#include <ctype.h>
 #include <algorithm>
 #include "hexio.h"
 using namespace hx;
@@ -110,6 +111,15 @@ static std::string materialise(std::string const &F, std::vector<wrec> const &W,
 	return res;
 }
 
+// sid_to_pos() reads an unsigned with sscanf("%x") from the first 4 characters and leaves it uninitialised when they are not hex
+// digits; session_sid::valid_sid lets only 32 lower-case hex digits through, so the storage API is called with well-formed names only
+static bool valid32(std::string const &n)
+{
+	if(n.size() != 32) return false;
+	for(size_t i = 0; i < 32; i++) if(!isxdigit((unsigned char)n[i])) return false;
+	return true;
+}
+
 static std::vector<std::string> splitc(std::string const &s, char c)
 {
 	std::vector<std::string> r; std::string cur;
@@ -141,7 +151,7 @@ int main()
 			try {
 				char op = a[0].size() == 1 ? a[0][0] : '?';
 				if((op == 'S' && a.size() == 4) || (op == 'K' && a.size() == 5)) {
-					size_t i = atoi(a[1].c_str()); if(i >= names.size()) throw 1;
+					size_t i = atoi(a[1].c_str()); if(i >= names.size() || !valid32(names[i])) throw 1;
 					std::string path = dir + "/" + names[i];
 					time_t t = (time_t)strtoll(a[2].c_str(), 0, 10);
 					std::string d = unhex(a[3]);
@@ -165,7 +175,7 @@ int main()
 					out << 'P';
 				}
 				else if(op == 'L' && a.size() == 3) {
-					size_t i = atoi(a[1].c_str()); if(i >= names.size()) throw 1;
+					size_t i = atoi(a[1].c_str()); if(i >= names.size() || !valid32(names[i])) throw 1;
 					g_now = (time_t)strtoll(a[2].c_str(), 0, 10);
 					time_t t = 0; std::string d = "stale";
 					if(st->load(names[i], t, d)) out << "L=" << (long long)t << '.' << hex(d);
@@ -177,7 +187,7 @@ int main()
 					out << 'G';
 				}
 				else if(op == 'X' && a.size() == 2) {
-					size_t i = atoi(a[1].c_str()); if(i >= names.size()) throw 1;
+					size_t i = atoi(a[1].c_str()); if(i >= names.size() || !valid32(names[i])) throw 1;
 					st->remove(names[i]);
 					out << 'X';
 				}
